@@ -26,7 +26,7 @@ MANIFEST = {
     'technique': 'runtime monitoring: round-trip differential (render -> re-parse -> compare, fixpoint over 3 cycles) on generated and API-built databases',
 }
 LEVEL = 'exploration'
-BUDGET = {'quick': 45, 'thorough': 420}
+BUDGET = {'quick': 90, 'thorough': 420}
 RULE = ('databases from (a) seeded random abstract documents in random surface styles [parsed origin], (b) the same '
         'documents built through pydbml.classes + Database.add [api origin], (c) exhaustive per-element products, '
         '(d) identifier-site x flavour sweep, (e) repository sample .dbml files; a case = one database taken through '
